@@ -5,7 +5,7 @@
    of the NLL value of Lik/NLL.v (the one C06 ties to the code). *)
 From Coq Require Import Reals List Lra.
 From Coquelicot Require Import Coquelicot.
-From TFV Require Import Base.RSum Lik.NLL Lik.NLL_proofs Lik.Grad Lik.Grad_proofs.
+From TFV Require Import Base.RSum Lik.NLL Lik.NLL_proofs Lik.Grad Lik.Grad_proofs Lik.GradCfit_proofs.
 Import ListNotations.
 Open Scope R_scope.
 
@@ -155,6 +155,30 @@ Print Assumptions C07_value_alongside_equals_standalone.
    gradient formula is built from the same rdot sums) *)
 
 (* non-vacuity *)
+(* cfit / cfit_extended Hessian: the hand-written second-derivative formulas (chain rule through I_sig with its
+   first and second derivatives) are the derivatives of the cfit gradient formulas along any coordinate *)
+Theorem C07_cfit_hess_is_derive : forall (c1 : R) (W c2 : list R) (Ss As : list (R -> R)) (dSl d2S : list R)
+        (Iu Ik : R -> R) (t dIl d2I : R),
+  Forall2 (fun (S : R -> R) (d : R) => is_derive S t d) Ss dSl ->
+  Forall2 (fun (A : R -> R) (d : R) => is_derive A t d) As d2S ->
+  is_derive Iu t dIl -> is_derive Ik t d2I -> Iu t <> 0 ->
+  List.Forall (fun x => x <> 0) (cfit_P c1 (Iu t) (evalat Ss t) c2) ->
+  is_derive (fun u => grad_cfit c1 W (evalat Ss u) (evalat As u) c2 (Iu u) (Ik u)) t
+            (hess_cfit c1 W (evalat Ss t) (evalat As t) dSl d2S c2 (Iu t) (Ik t) dIl d2I).
+Proof. exact cfit_hess_is_derive. Qed.
+Print Assumptions C07_cfit_hess_is_derive.
+
+Theorem C07_cfit_ext_hess_is_derive : forall (c1 : R) (W c2 : list R) (Ss As : list (R -> R)) (dSl d2S : list R)
+        (Iu Ik : R -> R) (t dIl d2I : R),
+  Forall2 (fun (S : R -> R) (d : R) => is_derive S t d) Ss dSl ->
+  Forall2 (fun (A : R -> R) (d : R) => is_derive A t d) As d2S ->
+  is_derive Iu t dIl -> is_derive Ik t d2I -> Iu t <> 0 ->
+  List.Forall (fun x => x <> 0) (cfit_P c1 (Iu t) (evalat Ss t) c2) ->
+  is_derive (fun u => grad_cfit_ext c1 W (evalat Ss u) (evalat As u) c2 (Iu u) (Ik u)) t
+            (hess_cfit_ext c1 W (evalat Ss t) (evalat As t) dSl d2S c2 (Iu t) (Ik t) dIl d2I).
+Proof. exact cfit_ext_hess_is_derive. Qed.
+Print Assumptions C07_cfit_ext_hess_is_derive.
+
 Example C07_example_grad : grad_default false [1] [2] [3] [1] [4] [2] = - (3 / 2) + 1 * (2 * / 4).
 Proof. unfold grad_default. cbn [rdot rzip rsum int_g]. lra. Qed.
 Example C07_example_bound : dy_sin 0 2 0 = 1.
